@@ -143,6 +143,28 @@ def parseMono (s : String) : Rat × List Nat :=
 def evalMPoly (ms : List (Rat × List Nat)) (y : Nat → Rat) : Rat :=
   ms.foldl (fun acc (c, es) => acc + c * ((List.range es.length).foldl (fun p k => p * npow (y k) (es.getD k 0)) 1)) 0
 
+/-- the same polynomial on a carrier `C` with the rational coefficients embedded -/
+def evalMPolyG {C : Type} [Add C] [Mul C] [Div C] [OfNat C 0] [OfNat C 1] (emb : Rat → C) (ms : List (Rat × List Nat)) (y : Nat → C) : C :=
+  ms.foldl (fun acc (c, es) => acc + emb c * ((List.range es.length).foldl (fun p k => p * npow (y k) (es.getD k 0)) 1)) 0
+
+/-- the generated Bicomplex ring operations as instances, for polynomial evaluation over `Bc (Cx Rat)` -/
+instance : Add (Bc (Cx Rat)) := ⟨Bc.add⟩
+instance : Mul (Bc (Cx Rat)) := ⟨Bc.mul⟩
+instance : OfNat (Bc (Cx Rat)) 0 := ⟨⟨0, 0⟩⟩
+instance : OfNat (Bc (Cx Rat)) 1 := ⟨⟨1, 0⟩⟩
+def bcPowNat (y : Bc (Cx Rat)) : Nat → Bc (Cx Rat)
+  | 0 => 1
+  | e + 1 => y * bcPowNat y e
+/-- a rational polynomial in several variables over `Bc (Cx Rat)` -/
+def evalMPolyBc (ms : List (Rat × List Nat)) (y : Nat → Bc (Cx Rat)) : Bc (Cx Rat) :=
+  ms.foldr (fun (c, es) acc => ((⟨Cx.ofReal c, 0⟩ : Bc (Cx Rat)) * ((List.range es.length).foldr (fun k p => bcPowNat (y k) (es.getD k 0) * p) 1)) + acc) 0
+/-- `HessianDifferenceFunctions._multicomplex2`, one cell -/
+def hessMulticomplexCellQ (ms : List (Rat × List Nat)) (x h : Nat → Rat) (i j : Nat) : Rat :=
+  (evalMPolyBc ms (fun k => ⟨⟨x k, if k = i then h i else 0⟩, ⟨if k = j then h j else 0, 0⟩⟩)).z2.im / (h j * h i)
+
+/-- Gaussian rationals as the complex carrier of the Hessian complex-step formula (`sj` is not used there) -/
+def cstepGauss : CStep Rat (Cx Rat) := ⟨Cx.ofReal, Cx.I, ⟨0, 0⟩, fun z => z.re, fun z => z.im⟩
+
 /-- concrete instance of the history model for the trace correspondence: values are the keys themselves, generator
 options = optional fixed ratio, points are opaque tokens -/
 def histPipeline (ratio1 ratioN : Rat) : Pipeline RuleKey (Option Rat) String Unit Unit where
@@ -240,8 +262,11 @@ def handle (w : List String) : String :=
       let xf : Nat → Rat := fun k => x.getD k 0
       let hf : Nat → Rat := fun k => h.getD k 0
       let fx := f xf
+      let fc : (Nat → Cx Rat) → Cx Rat := evalMPolyG Cx.ofReal (ms.map parseMono)
       let cell : Nat → Nat → Rat :=
-        if name == "_forward" then hessForwardCell f fx xf hf
+        if name == "_multicomplex2" then hessMulticomplexCellQ (ms.map parseMono) xf hf
+        else if name == "_complex_even" then hessComplexCell cstepGauss fc xf hf
+        else if name == "_forward" then hessForwardCell f fx xf hf
         else if name == "_backward" then hessForwardCell f fx xf (fun k => -(hf k))
         else if name == "_central_even" then hessCentralCell f fx xf hf
         else hessCentral2Cell f fx xf hf
